@@ -538,7 +538,7 @@ def record_job(job):
         if opts.get("coarse"):
             rem = gen.logu(rng, 0.1, 10.0)
         if opts.get("overcool"):
-            rem = rng.uniform(0.25, 0.97)          # one step removes a large part of the feed: self-cooling below 0 K
+            rem = rng.uniform(0.4, 0.97)           # one step removes a large part of the feed: self-cooling below 0 K
         sc = scenario(rng, kind=kind, removal=rem, prog_p=0.0 if opts.get("overcool") else 0.4,
                       mode=rng.choice(["vac", "press"]) if opts.get("pole") else None)
         if (opts.get("coarse") or opts.get("overcool")) and rng.random() < opts.get("unselective_p", 0.3):
